@@ -579,7 +579,10 @@ def check_ordered_labeling(inst: Instance, lab, root_order=None) -> Optional[str
             return f"leaf-synteny-changed:{l}"
     root = list(lab[inst.oroot])
     if inst.ochildren[inst.oroot]:
-        if sorted(root) != fams or len(set(root)) != len(root):
+        # every family of the input once: those carried by the leaves and, when the input prescribes a root synteny
+        # (any common supersequence of the leaves), those it names as well
+        want = sorted(set(fams) | set(root_order or ()))
+        if sorted(root) != want or len(set(root)) != len(root):
             return "root-not-every-family-once"
     if root_order is not None and root != list(root_order):
         return "root-not-prescribed"
